@@ -16,6 +16,7 @@
 EXTENDS Push
 
 CONSTANTS RecentDays,    \* fetchrecentrefsdays + pruneoffsetdays (default 7 + 3)
+          CommitWindows, \* values of fetchrecentcommitsdays + pruneoffsetdays a prune may run under (0: commitsdays at its default 0)
           PruneFlags,    \* subset of {"none","dry-run","recent","force","verify-remote"}
           EmitSel,       \* generation only: rotates which flag is emitted for states where nothing is prunable
           Thin           \* generation only: TRUE applies that thinning, FALSE emits every prune edge
@@ -49,14 +50,38 @@ RecentTips  == {c \in AllRefs \ {NoCommit} : commits[c].age <= RecentDays}
 RecentOids  == UNION {TreeOids(c) : c \in RecentTips}
 StagedOids  == {staged[p] : p \in Paths} \cap Oids
 
-MustRetain(f) == Unpushed \cup stashed \cup StagedOids
-                 \cup (IF f = "force" THEN {} ELSE TreeOids(br[head]) \cup WtOids)
-                 \cup (IF f \in {"recent", "force"} THEN {} ELSE RecentOids)
+\* "Recent commits" (git-lfs-prune(1), lfs.fetchrecentcommitsdays > 0): for the current checkout and for
+\* every recent ref, the versions *replaced* by commits made less than w days (commitsdays +
+\* pruneoffsetdays) before the ref's own commit date stay.  Claimed for a commit only where the
+\* whole chain from the ref down to it lies inside the window (nothing depends on how Git's walk
+\* treats dates that do not follow ancestry) and for commits with at most one parent (git log -p
+\* shows no diff for a merge).  w = 0: the setting is at its default and nothing is claimed.
+InWindow(c, y, w) == commits[y].age - commits[c].age < w
+WindowOf(c, w) ==
+  LET RECURSIVE F(_)
+      F(S) == LET n == S \cup {y \in UNION {commits[x].par : x \in S} : InWindow(c, y, w)} IN IF n = S THEN S ELSE F(n)
+  IN F({c})
+Replaced(x) == IF Cardinality(commits[x].par) > 1 THEN {}
+               ELSE LET old == IF commits[x].par = {} THEN EmptyTree ELSE commits[CHOOSE y \in commits[x].par : TRUE].tree
+                    IN {old[p] : p \in {q \in Paths : old[q] # commits[x].tree[q]}} \cap Oids
+PrevVersions(f, w) == IF w = 0 \/ f \in {"recent", "force"} THEN {}
+                      ELSE UNION {Replaced(x) : x \in UNION {WindowOf(c, w) : c \in {br[head]} \cup RecentTips}}
+
+\* some local object is kept by a commit that lies one day inside its window: the boundary case
+\* (steers replay; never an argument of a verdict)
+NearEdge(f, w) == /\ w > 0 /\ f \notin {"recent", "force"}
+                  /\ \E c \in {br[head]} \cup RecentTips : \E x \in WindowOf(c, w) :
+                        commits[x].age - commits[c].age = w - 1 /\ Replaced(x) \cap LocalPresent # {}
+
+MustRetain(f, w) == Unpushed \cup stashed \cup StagedOids
+                    \cup (IF f = "force" THEN {} ELSE TreeOids(br[head]) \cup WtOids)
+                    \cup (IF f \in {"recent", "force"} THEN {} ELSE RecentOids)
+                    \cup PrevVersions(f, w)
 
 \* the reasons one by one (MustRetain is their union), and which of them is, for some local object, the
 \* only reason it is retained: a prune in such a state tests that rule in isolation (used to steer replay)
 RecentOf(S) == UNION {TreeOids(c) : c \in {x \in S \ {NoCommit} : commits[x].age <= RecentDays}}
-Reason(name, f) ==
+Reason(name, f, w) ==
   CASE name = "unpushed" -> Unpushed
     [] name = "stash"    -> stashed
     [] name = "index"    -> StagedOids
@@ -65,8 +90,9 @@ Reason(name, f) ==
     [] name = "recent-local"  -> IF f \in {"recent", "force"} THEN {} ELSE RecentOf({br[b] : b \in Branches})
     [] name = "recent-remote" -> IF f \in {"recent", "force"} THEN {} ELSE RecentOf({rt[b] : b \in Branches})
     [] name = "recent-other-remote" -> IF f \in {"recent", "force"} THEN {} ELSE RecentOf({rt2[b] : b \in Branches})
-Reasons == {"unpushed", "stash", "index", "head", "worktree", "recent-local", "recent-remote", "recent-other-remote"}
-SoleReasons(f) == {n \in Reasons : \E o \in Reason(n, f) \cap LocalPresent : \A m \in Reasons \ {n} : o \notin Reason(m, f)}
+    [] name = "recent-commits" -> PrevVersions(f, w)
+Reasons == {"unpushed", "stash", "index", "head", "worktree", "recent-local", "recent-remote", "recent-other-remote", "recent-commits"}
+SoleReasons(f, w) == {n \in Reasons : \E o \in Reason(n, f, w) \cap LocalPresent : \A m \in Reasons \ {n} : o \notin Reason(m, f, w)}
 
 \* ---- dirty state (only on top of a finished history) -----------------------
 Stage(p, o, where) ==    \* git add in the main or in the linked worktree; the index of every worktree counts
@@ -123,16 +149,21 @@ Switch(b) ==             \* git checkout b
   /\ Log([a |-> "switch", b |-> b])
 
 \* ---- the verdict action ------------------------------------------------------
-Prune(f, from) ==        \* from: the worktree the command is run in ("main" | "linked")
-  /\ f \in PruneFlags /\ br[head] # NoCommit /\ (from = "linked" => wt # "none")
-  /\ LET must    == MustRetain(f)
+\* w: the recent-commits window in days the command is configured with (0: default, no window);
+\* a parameter of the verdict step, like the flag
+Prune(f, from, w) ==     \* from: the worktree the command is run in ("main" | "linked")
+  /\ f \in PruneFlags /\ w \in CommitWindows
+  \* --recent / --force switch the window off; the linked side adds nothing to it
+  /\ (w > 0 => f \notin {"recent", "force"} /\ from = "main")
+  /\ br[head] # NoCommit /\ (from = "linked" => wt # "none")
+  /\ LET must    == MustRetain(f, w)
          allowed == LocalPresent \ must
          \* with --verify-remote a reachable object the server lacks halts the command
          halts   == f = "verify-remote" /\ (allowed \cap Reachable) \ server # {}
          del     == IF f = "dry-run" \/ halts THEN {} ELSE allowed      \* what the current code does (drift layer)
      IN /\ local' = [o \in Oids |-> IF o \in del THEN "absent" ELSE local[o]]
         /\ pruned' = pruned \cup del /\ done' = TRUE
-        /\ Log([a |-> "prune", flags |-> f, from |-> from, sole |-> SoleReasons(f), mustRetain |-> must \cap LocalPresent, allowed |-> allowed,
+        /\ Log([a |-> "prune", flags |-> f, from |-> from, window |-> w, nearEdge |-> NearEdge(f, w), sole |-> SoleReasons(f, w), mustRetain |-> must \cap LocalPresent, allowed |-> allowed,
                 localBefore |-> LocalPresent, reachable |-> Reachable, serverHas |-> server, expectDeleted |-> del])
   /\ UNCHANGED <<commits, br, rr, rt, head, server, everRemote, staged, stagedIn, stashed, wt, rt2>>
 
@@ -150,7 +181,7 @@ PServerLoses(o)        == Keep /\ ServerLoses(o)
 PSwitch(b)             == Keep /\ Switch(b)
 PWorktree(b)           == Keep /\ AddWorktree(b)
 POtherRemote(b)        == Keep /\ Clean /\ OtherRemoteRef(b)
-PPrune(f, from)        == ~done /\ Prune(f, from)
+PPrune(f, from, w)     == ~done /\ Prune(f, from, w)
 
 PNext == \/ \E b \in Branches, p \in Paths, blob \in Blobs, g \in Ages : PCommit(b, p, blob, g)
          \/ \E b \in Branches, t \in [Paths -> Oids], g \in Ages : PCommitTree(b, t, g)
@@ -163,7 +194,7 @@ PNext == \/ \E b \in Branches, p \in Paths, blob \in Blobs, g \in Ages : PCommit
          \/ \E b \in Branches : PSwitch(b)
          \/ \E b \in Branches : PWorktree(b)
          \/ \E b \in Branches : POtherRemote(b)
-         \/ \E f \in PruneFlags, from \in {"main", "linked"} : PPrune(f, from)
+         \/ \E f \in PruneFlags, from \in {"main", "linked"}, w \in CommitWindows : PPrune(f, from, w)
 PSpec == PInit /\ [][PNext]_pvars
 
 \* The merge family (its own configurations, longer histories over fewer other dimensions): commits on
@@ -173,11 +204,11 @@ PNextM == \/ \E b \in Branches, p \in Paths, blob \in Blobs, g \in Ages : PCommi
           \/ \E b, o \in Branches : PMerge(b, o)
           \/ \E b \in Branches : PDelBranch(b)
           \/ \E S \in SUBSET Branches : PPush(S)
-          \/ \E f \in PruneFlags : PPrune(f, "main")
+          \/ \E f \in PruneFlags, w \in CommitWindows : PPrune(f, "main", w)
 PSpecM == PInit /\ [][PNextM]_pvars
 
 \* C05 on the design: nothing that must be retained is ever pruned; the unpushed are always safe
-NeverPrunesNeeded == [][\A f \in PruneFlags, from \in {"main", "linked"} : Prune(f, from) => (pruned' \ pruned) \cap MustRetain(f) = {}]_pvars
+NeverPrunesNeeded == [][\A f \in PruneFlags, from \in {"main", "linked"}, w \in CommitWindows : Prune(f, from, w) => (pruned' \ pruned) \cap MustRetain(f, w) = {}]_pvars
 
 \* Generation: every prune edge whose state has something prunable is emitted; where nothing
 \* is prunable the flags behave alike on the model, so one flag per state is emitted, rotated by
